@@ -688,7 +688,7 @@ PROPS.update({
                 explanation="crash safety: crash model (CrashImage), S1 file-is-record-prefix, S2 recovered = replay of a journal prefix, S3 journal prefixes mirror history prefixes beyond the drop marker, S4 acknowledged position is durable; combined end-to-end theorems c03_crash_prefix / c03_acked_writes_survive without side hypotheses (ghost store of dropped-but-linked chunks)", assumptions=OS_ASSUMPTIONS),
     "C05": dict(modules=['C05', 'C05Crash', 'AnyHistory'], theorems=['c05_recovery_never_panics_any_history_partial', 'c05_open_succeeds_any_history_partial', 'c05_sys_open_succeeds_any_history_partial', 'c05_recovered_store_is_consistent_any_history_partial', 'c05_open_no_panic_partial', "c05_open_no_panic_partial'", 'c05_fsSmall_of_all', 'c05_reuse_has_last', 'c05_open_panics_on_max_index', 'c05_headless_newest_is_recreated', 'c05_headless_only_file', 'openLoop_no_panic', 'openStore_no_panic', 'replay_small', 'openStore_fresh', 'Loads.openLoop_append', 'c05_noTornPredecessor_spec', 'c05_noTornPredecessor_records', 'c05_open_succeeds_partial', 'c05_sys_open_succeeds_partial', 'c05_rotation_gap_witness', 'c05_no_torn_predecessor_when_synced', 'c05_open_succeeds_when_acked', 'c05_recovered_store_is_consistent', 'c05_recovered_payloads', 'c05_recovered_accepts_history', 'c05_flush_is_acknowledged', 'c05_recovered_restart_is_identity', 'c05_recovered_cycles', 'c05_open_effect_spec', 'c05_recovery_crash_is_recoverable', 'c05_crashInv_spec', 'c05_crashInv_fresh', 'c05_crashInv_history', 'c05_crashInv_retarget', 'c05_crashInv_recovered', 'c05_crashInv_crash_prefix', 'c05_crashInv_no_torn_when_acked', 'c05_crashInv_recovery_crash', 'c05_two_crashes', 'c05_recovery_never_panics', 'c05_crashInv_never_panics'], gen=gen_c05, project=proj_recovery, oracle=oracle_c05, nontrivial=lambda s: len(s) > 6,
                 explanation="crash recoverability", assumptions=OS_ASSUMPTIONS),
-    "C10": dict(theorems=['c10_encRecord_length_pos', 'parse_encAll', 'parse_cut', 'parse_cut_at', 'parse_zero_tail', 'c10_crc32_zeros_ne_zero', 'c10_clean_open', 'c10_cut_truncate', 'c10_zero_truncate', 'c10_open_truncates_and_creates', "c10_open_single_chunk'", 'c10_open_single_chunk', 'parseChunk_encAll_append', 'parseChunk_canon', 'parseLoop_fuel', 'decRecord_zeros_eof', 'decRecord_zeros_invalid', 'openChunk_of_parse'],
+    "C10": dict(modules=['C10', 'C10Sys'], theorems=['c10_sys_cut_spec', 'c10_sys_zero_spec', 'c10_sys_sameBytes_spec', 'c10_sys_cut_newest_inv', 'c10_sys_cut_newest', 'c10_sys_cut_newest_reach', 'c10_sys_zero_from_boundary_inv', 'c10_sys_zero_from_boundary_reach', 'c10_sys_zero_tail_newest_inv', 'c10_sys_zero_tail_newest', 'c10_sys_zero_tail_newest_reach', 'sys_torn_newestC10S', 'take_insideC10S', 'c10_sys_zero_tail_recovered_accepts_partial', 'c10_encRecord_length_pos', 'parse_encAll', 'parse_cut', 'parse_cut_at', 'parse_zero_tail', 'c10_crc32_zeros_ne_zero', 'c10_clean_open', 'c10_cut_truncate', 'c10_zero_truncate', 'c10_open_truncates_and_creates', "c10_open_single_chunk'", 'c10_open_single_chunk', 'parseChunk_encAll_append', 'parseChunk_canon', 'parseLoop_fuel', 'decRecord_zeros_eof', 'decRecord_zeros_invalid', 'openChunk_of_parse'],
                 gen=scripts_c10, project=proj_recovery, oracle=oracle_c10, nontrivial=lambda s: len(s) > 6,
                 explanation="torn / zero tail", assumptions=OS_ASSUMPTIONS),
     "C09": dict(modules=['C09', 'C09Crc', 'C09Sys'], theorems=['c09_sys_rm_spec', 'c09_sys_missing_middle_chunk_inv', 'c09_sys_missing_middle_chunk', 'c09_sys_missing_middle_chunk_reach', 'c09_valuePos_spec', 'c09_valuePos_append', 'c09_value_byte_decode_invalid', 'c09_chunk_value_byte_invalid', 'c09_sys_setByte_spec', 'c09_sys_value_byte_altered_inv', 'c09_sys_value_byte_altered', 'c09_sys_value_byte_altered_reach', 'crc_onebyteC9S', 'encTB_setC9S', 'c09_checksum_mismatch_invalid', 'c09_invalid_reported', 'c09_wrong_sum_is_invalid', 'c09_wrong_sum_chunk', 'mutated_length', 'c09_chunk_byte_altered', 'c09_chunk_byte_altered_not_original', 'c09_missing_middle_chunk', 'c09_missing_middle_chunk_two', 'c09_open_gap', 'decRecord_bad_sum', 'openLoop_gap', 'openLoop_clean_step'],
